@@ -188,6 +188,9 @@ DEPTHS = [1, 2, 5, 10, 20, 40, 49, 50, 51, 60, 100, 150, 200]
 SIZES = [10, 100, 1000, 10000, 100000]
 
 
+SLOW_SEED_MARKS = ("FROM t1 y WHERE y.b = x.b AND y.a = ( SELECT MIN", "'(a*)*b'")
+
+
 def nest_seeds():
     out = []
     for d in DEPTHS:
@@ -235,7 +238,9 @@ def all_seeds():
         if k not in seen:
             seen.add(k)
             uniq.append(s)
-    return uniq
+    # seeds that need seconds on the unchanged tree are not token-mutated exhaustively (SqlFuzz_d1 stops before them)
+    slow = [s for s in uniq if s["id"][0] in "wi" and any(m in untok(s["toks"]) for m in SLOW_SEED_MARKS)]
+    return [s for s in uniq if s not in slow] + slow
 
 
 def untok(toks):
@@ -317,9 +322,12 @@ def load_corpus(small_only=False):
     return out
 
 
-def write_hashes(recs):
+def write_hashes(recs, dropped=()):
+    """hashes.txt.gz: '<hash> <source>' of every frozen statement, plus '<hash> dropped' for candidates left out at
+    freeze time (too slow on the unchanged tree for a load-independent deadline verdict): the exhaustive TLC runs
+    reach them again, and the check skips them instead of treating them as new."""
     with gzip.GzipFile(os.path.join(CORPUS, "hashes.txt.gz"), "wb", mtime=0) as g:
-        g.write(("\n".join(f"{r['h']} {r['src']}" for r in recs) + "\n").encode())
+        g.write(("\n".join([f"{r['h']} {r['src']}" for r in recs] + [f"{h} dropped" for h in sorted(dropped)]) + "\n").encode())
 
 
 def load_hashes():
